@@ -8,7 +8,8 @@ CONSTANTS
   FreeLocs = TRUE
   BatchSizes = {1, 2, 3}
   PerIns = 1
-  PerFl = 2
+  PerFl = 1
+  LateTables = {"t2"}
   LockScope = "fix"
   SigMode = "proc"
 VIEW View
